@@ -47,6 +47,7 @@ var supplements = map[string]monitorSpec{
 	"C08": {"io", "stream_mon_test.go.txt", "codec-dependent part: sinks and sources that fail after a pseudo-random number of bytes are never answered with success on incomplete data"},
 	"C03": {"io", "stream_mon_test.go.txt", "codec-dependent part: mutated streams never make the reader panic or run longer than max(60 s, 200 x the decoding time of the valid stream)"},
 	"C10": {"io", "golden_mon_test.go.txt", "golden corpus: streams written by the reference snapshot 76efab5 decode to the bytes the reference wrote"},
+	"C19": {"app", "cli_mon_test.go.txt", "the built binary on generated trees: round trips over levels and options, refusals (existing output without -f, output equal to input), --rm keeps the source when the output fails"},
 	"C17": {"io", "stream_mon_test.go.txt", "lifecycle programs on the real Writer and Reader: operations after Close fail without side effects, Close idempotent, counters monotone"},
 	"C14": {"bitstream", "bits_mon_test.go.txt", "bit-level content: values read back by ReadBit/ReadBits/ReadArray equal the values written by WriteBit/WriteBits/WriteArray, for unaligned counts and short reads"},
 }
